@@ -354,6 +354,8 @@ class Engine:
                     x, y = kids(inner)
                     px, py = self.ev(x, st), self.ev(y, st)
                     tag = 'ceildiv' if cn == 'ceil' else 'floordiv'
+                    if not fe.is_float_type(inner):
+                        tag = 'floordiv'        # integer division: already truncated, ceil() has no effect
                     if any(z.startswith('?') for z in px.atoms() | py.atoms()):
                         return Poly.atom('?%s(%s,%s)' % (tag, px, py))
                     q = Poly.atom(defined_atom(tag, px, py))
@@ -1377,8 +1379,11 @@ class Engine:
         if '*' in qt or fe.is_float_type(v) or qt in ('double', 'float'):
             return
         st.vals[nm] = self.ev(init, st)
-        if (t.get('desugaredQualType') or qt) in ('int', 'long', 'short', 'char') and st.vals[nm].atoms():
-            pass
+        if getattr(self.ck, 'check_wrap', False) and si.get('kind') == 'BinaryOperator' and si.get('opcode') == '-':
+            dq = (t.get('desugaredQualType') or qt)
+            if dq.startswith('unsigned') or qt in ('size_t',):
+                # an unsigned difference that may be negative wraps to a huge value
+                self.oblige(v, 'wrap', Poly.const(0), st.vals[nm] + 1, st, text='%s %s = %s' % (qt, v.get('name'), self.f.unit.text(si)[:60]))
 
     # ---- loops -------------------------------------------------------------------------
     def exec_loop(self, loop, states):
